@@ -160,9 +160,11 @@ func (mb *mbox) writeIndex() error {
 		if err := mb.createDir(); err != nil {
 			return err
 		}
-		// Open index for writing
-		crashPoint("index-create", mb.indexPath)
-		file, err := os.Create(mb.indexPath)
+		// Write the new index beside the live one, then move it into place, so that a crash
+		// never leaves a truncated or half-written index behind.
+		tmpPath := mb.indexPath + ".tmp"
+		crashPoint("index-tmp-create", tmpPath)
+		file, err := os.Create(tmpPath)
 		if err != nil {
 			return err
 		}
@@ -171,23 +173,32 @@ func (mb *mbox) writeIndex() error {
 		enc := gob.NewEncoder(writer)
 		if err = enc.Encode(mb.name); err != nil {
 			_ = file.Close()
+			_ = os.Remove(tmpPath)
 			return err
 		}
 		for _, m := range mb.messages {
 			if err = enc.Encode(m); err != nil {
 				_ = file.Close()
+				_ = os.Remove(tmpPath)
 				return err
 			}
 		}
-		crashPoint("index-flush", mb.indexPath)
+		crashPoint("index-tmp-flush", tmpPath)
 		if err := writer.Flush(); err != nil {
 			_ = file.Close()
+			_ = os.Remove(tmpPath)
 			return err
 		}
-		crashPoint("index-written", mb.indexPath)
+		crashPoint("index-tmp-written", tmpPath)
 		if err := file.Close(); err != nil {
-			log.Error().Str("module", "storage").Str("path", mb.indexPath).Err(err).
+			log.Error().Str("module", "storage").Str("path", tmpPath).Err(err).
 				Msg("Failed to close")
+			_ = os.Remove(tmpPath)
+			return err
+		}
+		crashPoint("index-rename", mb.indexPath)
+		if err := os.Rename(tmpPath, mb.indexPath); err != nil {
+			_ = os.Remove(tmpPath)
 			return err
 		}
 	} else {
